@@ -1987,7 +1987,14 @@ class PyCdlib:
         while curr_sector < num_sectors:
             # Only the bytes of the file itself count; the file object it
             # was added from may hold more than that.
-            block = data_fp.read(min(self.logical_block_size, left))
+            want = min(self.logical_block_size, left)
+            block = b''
+            while len(block) < want:
+                # (A read may return less than asked for before the end.)
+                piece = data_fp.read(want - len(block))
+                if not piece:
+                    break
+                block += piece
             left -= len(block)
             block = block.ljust(2048, b'\x00')
             i = 0
